@@ -26,6 +26,7 @@ func init() {
 			rulePageCapacity(c, "C07.R8")
 			ruleInlineNoNested(c, "C07.R9")
 			ruleFreeSetEntry(c, "C07.R10") // "both free and in use": a page enters the free set only through the release path
+			ruleMovedInodesCarryChildren(c, "C07.R12") // "reachable yet free": a merged node's dirty child must not be left under the freed node
 			ruleKeyOrderPredicates(c, "C07.R11") // "keys are ordered within and across pages": insertion and search positions come from lower-bound predicates over bytes.Compare
 		},
 	})
